@@ -4,9 +4,12 @@ COQDIR := coq
 CACHE := .cache
 VFILES := $(shell cd $(COQDIR) && find Model Spec Proofs Properties Run -name '*.v' | sort)
 
-.PHONY: setup coq harness clean coq-clean
+.PHONY: setup coq harness extract clean coq-clean
 
-setup: coq harness
+setup: coq harness extract
+
+extract: coq
+	python3 -c "import sys; sys.path.insert(0,'lib'); import sfv; print(sfv.build_extracted())"
 
 $(COQDIR)/Makefile: $(COQDIR)/_CoqProject $(addprefix $(COQDIR)/,$(VFILES))
 	cd $(COQDIR) && coq_makefile -f _CoqProject -o Makefile $(VFILES)
